@@ -499,3 +499,86 @@ func retVal(ret *ssa.Return, i int) ssa.Value {
 	}
 	return v
 }
+
+// ---------- captured variables (cells) ----------
+
+// cellOf maps a FreeVar (or Alloc) to the Alloc in the enclosing function that
+// it is bound to, following MakeClosure bindings outwards.
+func cellOf(v ssa.Value) *ssa.Alloc {
+	for depth := 0; depth < 8; depth++ {
+		switch x := v.(type) {
+		case *ssa.Alloc:
+			return x
+		case *ssa.FreeVar:
+			fn := x.Parent()
+			par := fn.Parent()
+			if par == nil {
+				return nil
+			}
+			idx := -1
+			for i, fv := range fn.FreeVars {
+				if fv == x {
+					idx = i
+				}
+			}
+			var bound ssa.Value
+			for _, b := range par.Blocks {
+				for _, in := range b.Instrs {
+					if mc, ok := in.(*ssa.MakeClosure); ok && mc.Fn == fn && idx >= 0 && idx < len(mc.Bindings) {
+						bound = mc.Bindings[idx]
+					}
+				}
+			}
+			if bound == nil {
+				return nil
+			}
+			v = bound
+		default:
+			return nil
+		}
+	}
+	return nil
+}
+
+// cellAccessors returns every value (the Alloc itself in its function and the
+// FreeVars bound to it in nested closures) that denotes the cell.
+func cellAccessors(al *ssa.Alloc) []ssa.Value {
+	out := []ssa.Value{al}
+	var visit func(fn *ssa.Function, v ssa.Value)
+	visit = func(fn *ssa.Function, v ssa.Value) {
+		for _, b := range fn.Blocks {
+			for _, in := range b.Instrs {
+				mc, ok := in.(*ssa.MakeClosure)
+				if !ok {
+					continue
+				}
+				cf := mc.Fn.(*ssa.Function)
+				for i, bd := range mc.Bindings {
+					if bd == v && i < len(cf.FreeVars) {
+						out = append(out, cf.FreeVars[i])
+						visit(cf, cf.FreeVars[i])
+					}
+				}
+			}
+		}
+	}
+	visit(al.Parent(), al)
+	return out
+}
+
+// cellStores returns the values stored into the cell anywhere (parent and closures).
+func cellStores(al *ssa.Alloc) []*ssa.Store {
+	var out []*ssa.Store
+	for _, acc := range cellAccessors(al) {
+		refs := acc.Referrers()
+		if refs == nil {
+			continue
+		}
+		for _, r := range *refs {
+			if st, ok := r.(*ssa.Store); ok && st.Addr == acc {
+				out = append(out, st)
+			}
+		}
+	}
+	return out
+}
